@@ -203,9 +203,15 @@ func (w *Worker) Inner(budget int, body func(in *Explorer)) {
 	}
 	in := NewExplorer(budget)
 	w.curInner = in
+	cnt := 0
 	for in.Begin() {
 		w.guardedBody(in, body)
 		w.progress.Add(1)
+		// a long inner enumeration must not overrun the tier's budget by minutes: the stage is then
+		// reported as incomplete (never as a verdict), like an outer enumeration that was cut
+		if cnt++; cnt&1023 == 0 && w.Expired() {
+			break
+		}
 	}
 	w.Rep.States += in.Nodes
 	w.Rep.Transitions += in.Edges
